@@ -34,7 +34,11 @@ def make(case, seed):
     inner = torch.optim.SGD(m.parameters(), lr=0.0)
     g = torch.Generator().manual_seed(seed) if case['usergen'] else None
     kw = dict(noise_multiplier=case['nm'], expected_batch_size=case['B'], loss_reduction=case['red'], generator=g, secure_mode=case['secure'])
-    if case['variant'] == 'perlayer':
+    if case['variant'] == 'adaptive':
+        from opacus.optimizers import AdaClipDPOptimizer
+        opt = AdaClipDPOptimizer(inner, max_grad_norm=case['C'], target_unclipped_quantile=0.3, clipbound_learning_rate=0.5, max_clipbound=1e3, min_clipbound=1e-3,
+                                 unclipped_num_std=2.0, **kw)
+    elif case['variant'] == 'perlayer':
         opt = DPPerLayerOptimizer(inner, max_grad_norm=[case['C']] * 3, **kw)
     else:
         opt = DPOptimizer(inner, max_grad_norm=case['C'], **kw)
@@ -49,15 +53,26 @@ def one_run(case, seed, nsteps=2):
         opt.zero_grad()
         loss = gsm(X).sum() if case['red'] == 'sum' else gsm(X).mean()
         loss.backward()
-        with Rec() as rec:
-            # reproduce pre_step by hand to read summed_grad before it is noised
-            opt.clip_and_accumulate()
-            summed = [p.summed_grad.clone() for p in opt.params]
-            opt.add_noise()
-            opt.scale_grad()
+        c_clip = float(opt.max_grad_norm)          # the bound the gradients of THIS step are clipped with
+        summed = []
+        real_add_noise = opt.add_noise
+
+        def spy():                               # read summed_grad just before it is noised, inside the REAL pre_step
+            summed.extend(p.summed_grad.clone() for p in opt.params)
+            real_add_noise()
+        opt.add_noise = spy
+        try:
+            with Rec() as rec:
+                opt.pre_step()
+        finally:
+            del opt.add_noise
+        calls = rec.calls
+        if case['variant'] == 'adaptive':
+            # the draw on the unclipped count (C20) has the shape of a scalar counter, wherever it comes in the sequence
+            calls = [c_ for c_ in calls if c_['size'] not in ([], [1])]
         grads = [p.grad.clone() for p in opt.params]
-        steps.append({'calls': rec.calls, 'summed': summed, 'grads': grads, 'shapes': [list(p.shape) for p in opt.params],
-                      'std_expected': float(opt.noise_multiplier * opt.max_grad_norm)})
+        steps.append({'calls': calls, 'summed': summed, 'grads': grads, 'shapes': [list(p.shape) for p in opt.params],
+                      'std_expected': float(opt.noise_multiplier) * c_clip})
     return steps
 
 
